@@ -76,6 +76,25 @@ Proof.
   unfold checked_table. apply filter_In. split; [exact Hin|]. cbn [fst]. rewrite Hex. reflexivity.
 Qed.
 
+(* no exception is left in the regenerated table: EVERY class of the inventory *)
+Lemma no_exception name : excepted name = false.
+Proof. reflexivity. Qed.
+
+Lemma reject_atomic_every_class :
+  forall name, In name INVENTORY ->
+  exists pset psetvalue, In (name, pset, psetvalue) ATOMIC_TABLE /\
+  forall o,
+    (snd (fst (exec pset o false)) = true -> fst (fst (exec pset o false)) = false) /\
+    (snd (fst (exec psetvalue o false)) = true -> fst (fst (exec psetvalue o false)) = false).
+Proof. intros name Hin. apply reject_atomic_all_classes; [exact Hin|apply no_exception]. Qed.
+
+(* the shape log.BooleanRequiredFalseOnWindows.set had before the repair of C15.F33: Boolean.set (which stores), then
+   the Windows test and self.error() *)
+Example store_then_reject_old_shape :
+  let old := SSeq (SSeq (STry SCheck (SSeq SCheck (SIf SSkip SError))) (SSeq SCheck SAssign)) (SSeq SCheck (SIf SError SSkip)) in
+  atomic old = false /\ exists o, fst (exec old o false) = (true, true).
+Proof. split; [vm_compute; reflexivity|]. exists [false; false; false; true]. vm_compute. reflexivity. Qed.
+
 (* the ordering the table must exclude (C15.F25 before its repair): check; store; side effect that may raise *)
 Example store_then_effect_not_atomic :
   atomic (SSeq (SSeq SCheck (SIf SError SSkip)) (SSeq SAssign SCheck)) = false /\
